@@ -345,3 +345,30 @@ V("c28-compute-chunk-sizes-direct-store", "C28", "R28.3", "dask_array/_collectio
   "        self._replace_expr(ChunksOverride(self._expr, new_chunks))\n\n        return self", "        self._replace_expr(ChunksOverride(self._lowered_expr, new_chunks))\n\n        return self", expect="compute_chunk_sizes")
 V("c28-twin-reordered-conjuncts", "C28", "-", "dask_array/slicing/_basic.py",
   "        if np.isnan(dim) and ind != slice(None, None, None):", "        if ind != slice(None, None, None) and np.isnan(dim):", twin=True)
+
+# ---------------------------------------------------------------------------- C21
+V("c21-skip-check-complete", "C21", "R21.1", "dask_array/_frisky/collect.py",
+  "    if not shared:\n        _check_complete(records)\n    return records", "    if not shared and len(records) < 100000:\n        _check_complete(records)\n    return records", expect="collect_task_records")
+V("c21-shared-computed-late", "C21", "R21.1", "dask_array/_frisky/collect.py",
+  "    shared = seen is not None\n    if seen is None:\n        seen = set()\n    records = []", "    if seen is None:\n        seen = set()\n    shared = seen is not None\n    records = []", expect="collect_task_records")
+V("c21-check-complete-warns", "C21", "R21.1", "dask_array/_frisky/collect.py",
+  "        raise NotImplementedError(f\"records graph has {len(dangling)} dangling dep(s), e.g. {next(iter(dangling))}\")", "        import warnings\n\n        warnings.warn(f\"records graph has {len(dangling)} dangling dep(s)\")", expect="_check_complete")
+V("c21-fallback-catches-everything", "C21", "R21.2", "dask_array/_frisky/collect.py",
+  "            try:\n                layer = make_layer()\n            except (NotImplementedError, ImportError):\n                layer = None\n        if layer is None:\n            layer = GraphRecordsLayer(e)\n        records.extend(layer.to_task_records())",
+  "            try:\n                layer = make_layer()\n            except Exception:\n                layer = None\n        if layer is None:\n            layer = GraphRecordsLayer(e)\n        records.extend(layer.to_task_records())", expect="_walk_records")
+V("c21-layer-raises-valueerror", "C21", "R21.2", "dask_array/_blockwise.py",
+  "            raise NotImplementedError(\"concatenate (variable fan-in)\")", "            raise ValueError(\"concatenate (variable fan-in)\")", expect="Blockwise._frisky_layer")
+V("c21-walker-drops-deps", "C21", "R21.3", "dask_array/_frisky/collect.py",
+  "        records.extend(layer.to_task_records())\n\n        stack.extend(e.dependencies())", "        records.extend(layer.to_task_records())\n        if layer is not None and not isinstance(layer, GraphRecordsLayer):\n            stack.extend(e.dependencies())", expect="_walk_records")
+V("c21-task-before-nested", "C21", "R21.4", "dask_array/_frisky/graph_records.py",
+  "        if isinstance(arg, NestedContainer) and arg.klass in (list, tuple):\n            return arg.klass(self.resolve(a, deps) for a in arg.args)\n        if isinstance(arg, Task):",
+  "        if isinstance(arg, Task) and not hasattr(arg, \"klass\"):\n            pass\n        if isinstance(arg, NestedContainer) and arg.klass in (list, tuple):\n            return arg.klass(self.resolve(a, deps) for a in arg.args)\n        if isinstance(arg, Task):", expect="_Flattener.resolve")
+V("c21-taskref-unnormalised", "C21", "R21.5", "dask_array/_frisky/graph_records.py",
+  "            k = _norm_key(arg.key)\n            deps.add(str(k))\n            return TaskRef(k)\n        if isinstance(arg, Alias):", "            k = arg.key\n            deps.add(str(k))\n            return TaskRef(k)\n        if isinstance(arg, Alias):", expect="_Flattener.resolve")
+V("c21-subkey-from-len", "C21", "R21.5", "dask_array/_frisky/graph_records.py",
+  "            self._n += 1\n            sub_key = f\"{self.parent_key}-sub{self._n}\"", "            sub_key = f\"{self.parent_key}-sub{len(self.extra) + 1}\"", expect="_Flattener.resolve")
+V("c21-hook-skips-support-check", "C21", "R21.6", "dask_array/_collection.py",
+  "        from dask.core import flatten\n\n        self._check_frisky_supported()\n        return list(", "        from dask.core import flatten\n\n        return list(", expect="__frisky_output_keys__")
+V("c21-twin-handler-order", "C21", "-", "dask_array/_frisky/collect.py",
+  "            try:\n                layer = make_layer()\n            except (NotImplementedError, ImportError):\n                layer = None\n        if layer is None:\n            layer = GraphRecordsLayer(e)\n        records.extend(layer.to_task_records())",
+  "            try:\n                layer = make_layer()\n            except (ImportError, NotImplementedError):\n                layer = None\n        if layer is None:\n            layer = GraphRecordsLayer(e)\n        records.extend(layer.to_task_records())", twin=True)
